@@ -1,6 +1,7 @@
 package checks
 
 import (
+	"bytes"
 	"fmt"
 	"math/bits"
 	"os"
@@ -328,6 +329,8 @@ func c15ICMP(c *wk.Ctx, idx *int64) {
 	}
 	defer s.Close()
 	n := c.N(20_000, 400_000)
+	echoBuf := bytes.Repeat([]byte{0xc7}, 64) // the message buffer of a caller that encodes one echo request after the other into it
+	echoData := []byte("abcdefghijklmnopqrstuvwxyz0123456789ABCDEFGHIJKL")
 	for i := int64(0); i < n; i++ {
 		*idx++
 		if i%64 == 0 {
@@ -411,6 +414,15 @@ func c15ICMP(c *wk.Ctx, idx *int64) {
 				c.Viol("tx:ICMP4SendEchoRequest:error", err.Error(), nil)
 				continue
 			}
+			// a retransmission: the next echo request of the same ping is encoded into the message buffer that still holds the
+			// previous, checksummed message (first use: arbitrary bytes) and handed to the session's own sender
+			if p := packet.EncodeICMPEcho(echoBuf, packet.ICMP4TypeEchoRequest, 0, id, seq+1, echoData[:r.Intn(len(echoData)+1)]); p != nil {
+				if err := s.VerifICMP4SendPacket(packet.Addr{MAC: nic.HostMAC, IP: src}, packet.Addr{MAC: dmac, IP: dst}, packet.ICMP(p)); err != nil {
+					c.Viol("tx:icmp4SendPacket:error", err.Error(), nil)
+					continue
+				}
+				c.Obs("echo_messages_encoded_over_an_earlier_message_and_verified", 1)
+			}
 			for _, f := range rec.Take() {
 				d := refdec.Decode(f.Data)
 				if d.Err || d.PayloadID != refdec.PICMP4 {
@@ -441,6 +453,13 @@ func c15ICMP(c *wk.Ctx, idx *int64) {
 			if err := s.ICMP6SendEchoRequest(packet.Addr{MAC: nic.HostMAC, IP: src}, packet.Addr{MAC: dmac, IP: dst}, id, seq); err != nil {
 				c.Viol("tx:ICMP6SendEchoRequest:error", err.Error(), nil)
 				continue
+			}
+			if p := packet.EncodeICMPEcho(echoBuf, packet.ICMP6TypeEchoRequest, 0, id, seq+1, echoData[:r.Intn(len(echoData)+1)]); p != nil {
+				if err := s.VerifICMP6SendPacket(packet.Addr{MAC: nic.HostMAC, IP: src}, packet.Addr{MAC: dmac, IP: dst}, p); err != nil {
+					c.Viol("tx:icmp6SendPacket:error", err.Error(), nil)
+					continue
+				}
+				c.Obs("echo_messages_encoded_over_an_earlier_message_and_verified", 1)
 			}
 			for _, f := range rec.Take() {
 				d := refdec.Decode(f.Data)
